@@ -3,7 +3,7 @@ package rules
 func init() {
 	register(&Property{
 		ID:      "C10",
-		Explain: "FOLD of the client handshake. ws.Dialer.Upgrade is evaluated on scripted responses (status-line forms 1.1/1.2/1.0/2.0 with 101, 1.1 200, malformed; header lists: none, the three mandatory headers in two orders, each missing, each kind alone, with protocol/extension/other/duplicate-protocol headers, a line without colon) with every comparison and callback as a free atom and every read/flush able to fail; the outcome of each path is compared with the reference of RFC 6455 4.1: success exactly for HTTP/1.x (x>=1), 101, Upgrade websocket, Connection upgrade and an accept value verified against the very nonce buffer that was initialised and written into the request; a subprotocol header is judged by its own value against the requested list (a second header cannot ride on the first one's match); errors name the first broken rule; the pooled reader is returned exactly when the handshake succeeded with bytes buffered, otherwise put back. The request text is folded against the RFC template for every combination of protocols / extensions / extra headers / Host override; the status code accepted as 101 is literally the three bytes \"101\" (folded over byte cells of tokens of 0-4 bytes); asciiToInt accepts exactly digits; the accept computation is sha1(nonce ++ GUID) in base64. config-read-only: no store reaches memory that belongs to the Dialer (its Extensions, Protocols, TLSConfig ...), traced through matchSelectedExtensions and every other callee by whole-module may-write summaries. nonce-randomness: initNonce is folded with the random source as named byte lanes: the key is the base64 encoding of 16 distinct random bytes. extra-headers-writer: HandshakeHeaderHTTP.WriteTo delegates to net/http's Header.Write (all values of a multi-valued key). OnHeader and the match of a Sec-WebSocket-Extensions value against the offer must be consulted on every path on which they apply (a path that never asked is a violation). The dialer's configured subprotocols, extensions, extra headers and Host override are the arguments of the request writer; every Sec-WebSocket-Extensions line of the response is matched against the configured offer and adds to what the earlier lines selected, and the extensions returned are the last match's result. The address dialed is what hostport makes of the URL's Host with :80 / :443 (dial-connection-ownership runs here); readLine is folded on chunking scripts.",
+		Explain: "FOLD of the client handshake. ws.Dialer.Upgrade is evaluated on scripted responses (status-line forms 1.1/1.2/1.0/2.0 with 101, 1.1 200, malformed; header lists: none, the three mandatory headers in two orders, each missing, each kind alone, with protocol/extension/other/duplicate-protocol headers, a line without colon) with every comparison and callback as a free atom and every read/flush able to fail; the outcome of each path is compared with the reference of RFC 6455 4.1: success exactly for HTTP/1.x (x>=1), 101, Upgrade websocket, Connection upgrade and an accept value verified against the very nonce buffer that was initialised and written into the request; a subprotocol header is judged by its own value against the requested list (a second header cannot ride on the first one's match); errors name the first broken rule; the pooled reader is returned exactly when the handshake succeeded with bytes buffered, otherwise put back. The request text is folded against the RFC template for every combination of protocols / extensions / extra headers / Host override; the status code accepted as 101 is literally the three bytes \"101\" (folded over byte cells of tokens of 0-4 bytes); asciiToInt accepts exactly digits; the accept computation is sha1(nonce ++ GUID) in base64. config-read-only: no store reaches memory that belongs to the Dialer (its Extensions, Protocols, TLSConfig ...), traced through matchSelectedExtensions and every other callee by whole-module may-write summaries. nonce-randomness: initNonce is folded with the random source as named byte lanes: the key is the base64 encoding of 16 distinct random bytes. extra-headers-writer: HandshakeHeaderHTTP.WriteTo delegates to net/http's Header.Write (all values of a multi-valued key). OnHeader and the match of a Sec-WebSocket-Extensions value against the offer must be consulted on every path on which they apply (a path that never asked is a violation). The dialer's configured subprotocols, extensions, extra headers and Host override are the arguments of the request writer; every Sec-WebSocket-Extensions line of the response is matched against the configured offer and adds to what the earlier lines selected, and the extensions returned are the last match's result. The address dialed is what hostport makes of the URL's Host with :80 / :443 (dial-connection-ownership runs here); readLine is folded on chunking scripts. watcher-protocol (C20) runs here: a handshake that completed while the context was being cancelled is reported as the context's error (the watcher has poisoned the connection's deadline), never as success.",
 		Trusted: []string{"go/ssa + go/types", "the checker's abstract evaluator", "net/url.ParseRequestURI, httphead option parsing, crypto/sha1, encoding/base64, math/rand (not analysed)"},
 		Assume:  []string{"URL parsing, IPv6 literal forms beyond the bracket rule and httphead's option grammar are not decided"},
 		Run: func(c *Ctx) {
